@@ -125,6 +125,18 @@ def install(plan, directory, buffer_size=io.DEFAULT_BUFFER_SIZE):
 
     builtins.open = my_open
     io.open = my_open
+    # zero-copy paths used by shutil (copy-into-place when a rename crosses filesystems) bypass write(): they are
+    # events too; a partial transfer is modelled by killing before the call (the destination is already truncated)
+    for name in ("sendfile", "copy_file_range", "splice"):
+        if hasattr(os, name):
+            real = getattr(os, name)
+
+            def mkz(real, name):
+                def f(*a, **k):
+                    plan.hit(name, None)
+                    return real(*a, **k)
+                return f
+            setattr(os, name, mkz(real, name))
     for name in ("replace", "rename", "fsync", "unlink", "remove", "link"):
         real = getattr(os, name)
 
